@@ -77,6 +77,9 @@ def gen_cases(tier, seed):
         cfg["seg"] = rng.choice([3, 4, 5, 10])  # prefixes which are not a multiple of the checksum word size
         cases.append({"cfg": cfg, "side": rng.choice("SD") if i % 3 else "S", "round": rng.randrange(0, 14), "wrong": rng.random() < 0.1,
                       "drop": None, "rand": seed * 1_000_003 + i})
+        if i % 3 == 1:
+            # before (or in the same round as) the cancel the user issues a put request towards another entity: refused, no influence
+            cases[-1]["busy_put"] = rng.randrange(0, cases[-1]["round"] + 1)
     return cases
 
 
@@ -93,6 +96,8 @@ def run_case(case):
         else:
             plan = EnumPlan({} if case["drop"] is None else {case["drop"]: "drop"})
         acts = {case["round"]: [("cancel", case["side"]) + (("wrong",) if case["wrong"] else ())]}
+        if case.get("busy_put") is not None:
+            acts.setdefault(case["busy_put"], []).insert(0, ("put_third",))
         r = Runner(w, plan=plan, actions=acts, max_expiries=30, max_rounds=2000)
         # observer for the file presence clause, evaluated inside the indication callback
         md_seen = {"v": False}
@@ -243,6 +248,10 @@ def run_case(case):
         obs["success_reports_checked"] = mon.success_reports
         sig = case if (act is not None and act["res"] is True) else None
         sample = {"cancel": [case["side"], case["round"]], "trace": trace_summary(w, r, 40)} if sig and case["round"] > 2 else None
+        if r.refused_puts:
+            obs["refused_put_requests_before_cancel"] = r.refused_puts
+            if any(e["kind"] == "action" and e["what"] == "put_third" and e["res"] is not False for e in evs):
+                viol.append({"clause": "put-request-while-busy-not-refused"})
         return {"viol": viol, "sig": sig, "obs": obs, "sample": sample}
 
 
@@ -250,5 +259,5 @@ def exhaustive(tier):
     return False
 
 
-REQUIRED = {"sender_cancels": 50, "receiver_cancels": 50, "eof_cancel_checked": 30, "eof_cancel_mid_file": 5, "eof_cancel_completion_checked": 20,
+REQUIRED = {"refused_put_requests_before_cancel": 50, "sender_cancels": 50, "receiver_cancels": 50, "eof_cancel_checked": 30, "eof_cancel_mid_file": 5, "eof_cancel_completion_checked": 20,
             "receiver_cancel_finished_pdu_checked": 20, "file_deletions_expected": 5, "file_presence_judged": 20, "judged_on_reused_handlers": 100}
